@@ -176,7 +176,7 @@ theorem extract_spec (w f t a : Nat) (ht : t ≤ f) :
     exact Nat.mod_mod_of_dvd _ (Nat.pow_dvd_pow 2 (Nat.le_succ _))
   · right; exact ha
 
-theorem extract_spec' (w f t a : Nat) (ht : t ≤ f) (ha : a < 2 ^ w) :
+theorem extract_spec_lt (w f t a : Nat) (ht : t ≤ f) (ha : a < 2 ^ w) :
     extract f t a = .ok (BitVec.extractLsb f t (BitVec.ofNat w a)).toNat := by
   rcases extract_spec w f t a ht with h | h
   · exact h
